@@ -1806,7 +1806,9 @@ impl<'a, const C: usize, const R: usize, T: 'a + Copy + std::fmt::Debug> Layout<
                                 }
                             }
                         };
-                        self.do_action(td.actions[0], coord, delay, false, layer_stack);
+                        // Pass on the custom event of the first action, e.g. the press of a
+                        // mouse button; the taps after it go through `dequeue` which does too.
+                        return self.do_action(td.actions[0], coord, delay, false, layer_stack);
                     }
                 }
             }
